@@ -1,5 +1,5 @@
 (* C07 - rebuilding an archive preserves its file set and contents. *)
-From WR Require Import Lib.Bits Mpq.Archive Mpq.Rebuild Proofs.Rebuild_proofs.
+From WR Require Import Lib.Bits Mpq.Crypt Mpq.Archive Mpq.Rebuild Proofs.Rebuild_proofs Proofs.HashTable_proofs Proofs.Build_proofs Proofs.RebuildWhole_proofs.
 Open Scope N_scope.
 
 Theorem C07_rebuild_specs_sound :
@@ -23,3 +23,26 @@ Theorem C07_rebuild_unreadable_dropped :
     read_file decompress a n = RErr -> ~ exists f, In f (rebuild_specs decompress a o) /\ f_name f = n.
 Proof. exact rebuild_unreadable_dropped. Qed.
 Print Assumptions C07_rebuild_unreadable_dropped.
+
+(* end to end in the model: the archive built from what rebuild hands to the builder opens, and every
+   listed, non-excluded, readable file of the source reads the same from it (under any spelling) *)
+Theorem C07_rebuild_roundtrip :
+  forall (compress : N -> list N -> option (list N)) (decompress : N -> list N -> N -> option (list N))
+         (a : archive) (o : ropts) (bytes : list N),
+    let specs := rebuild_specs decompress a o in
+    let c := rebuild_cfg a o specs in
+    (c_version c = 1 \/ c_version c = 2) -> c_shift c < 65536 ->
+    build compress c specs = BOk bytes -> lenN bytes < M32 ->
+    Forall (file_ok compress decompress (sector_size (c_shift c))) (pending c specs) ->
+    NoDup (map hkey (pending c specs)) ->
+    exists a', open bytes = Some a' /\
+               forall n d, In n (listed decompress a) -> excluded a o n = false ->
+                           read_file decompress a n = ROk d -> read_file decompress a' n = ROk d.
+Proof. exact rebuild_roundtrip. Qed.
+Print Assumptions C07_rebuild_roundtrip.
+
+Theorem C07_read_file_spelling :
+  forall (decompress : N -> list N -> N -> option (list N)) a n1 n2,
+    map norm n1 = map norm n2 -> read_file decompress a n1 = read_file decompress a n2.
+Proof. exact read_file_spelling. Qed.
+Print Assumptions C07_read_file_spelling.
